@@ -48,7 +48,7 @@ CHECKS = [
         "random-sampling collectors over explicit clock / coin lists - their running totals are the cumulative collector's whatever clock and "
         "coins, what they write is its output thinned by an explicit mask; interval <= 0 and percent > 100 are the cumulative collector, an "
         "interval that never elapses is the sampling collector beyond the sequence length; the harness drives them at those parameter values.",
-        "Trusted: as C12. A wrapped ftdc collector that refuses a write is driven (what is handed over does not depend on it) but its "
+        "Known finding C14-caller-write (reported as KNOWN-FINDING when the fixed histories with a caller write reproduce it; Coq: C14_caller_write_refuted over Model/EventsAlias.v): the cumulative and sampling collectors alias the first event object as their accumulator. Trusted: as C12. A wrapped ftdc collector that refuses a write is driven (what is handed over does not depend on it) but its "
         "refusals are not part of the events model; timestamps "
         "kept within years 1800-2200 (UnixNano range is C01's concern); sampling rate 0 modelled as a panic, excluded (n >= 1).",
         "Coq proof (induction over operation histories on an explicit object store) + differential correspondence",
